@@ -175,7 +175,11 @@ func Build(c Case, p Profile, raws []RawCmd, nsess int) []Cmd {
 		} else if IsStmt(kind) {
 			target = []int{0}
 		}
-		if p.Faults && r.FP < faultPct {
+		fp := faultPct
+		if (kind == KCommit || kind == KRollback || kind == KAc1) && len(g.held) > 0 {
+			fp = 70 // transaction-ending commands are rare: fault them more often
+		}
+		if p.Faults && r.FP < fp {
 			var ons []string
 			switch {
 			case IsStmt(kind):
